@@ -1,22 +1,114 @@
 package elin
 
 import (
+	"math/big"
+	"os"
 	"testing"
 
 	"voicheck/load"
 	"voicheck/report"
 )
 
-// TestRecodingsPurego runs the recoding driver on the purego configuration
-// of the repository under analysis (skipped when it cannot be loaded).
-func TestRecodingsPurego(t *testing.T) {
-	p, err := load.Load("purego", load.Opts{SSA: true})
-	if err != nil {
-		t.Skip(err)
+// world without a loaded program: enough for the value domain.
+func testWorld() *World {
+	return &World{remMemo: map[string]*remInfo{}, failSeen: map[string]bool{}, Stats: map[string]int{}}
+}
+
+func TestFormArithmetic(t *testing.T) {
+	w := testWorld()
+	a, b := w.BitVar("x", 0), w.BitVar("x", 1)
+	f := varForm(a).Add(varForm(b).Shl(1)).Add(int64Form(4)) // 4 + a + 2b
+	if r := w.rangeOf(f); r.Lo.Int64() != 4 || r.Hi.Int64() != 7 {
+		t.Fatalf("range %s", r)
 	}
-	run := report.New("XLINTEST", "quick", 0)
-	res := CheckRecodings(run, p, "LIN")
-	if res.Obligations == 0 || res.Discharged != res.Obligations {
-		t.Fatalf("obligations %d discharged %d", res.Obligations, res.Discharged)
+	g := f.Sub(varForm(a)).Sub(int64Form(4)).Scale(big.NewRat(1, 2)) // b
+	if !g.Equal(varForm(b)) {
+		t.Fatalf("got %s", g.Key())
+	}
+	if h := f.Subst(map[int]int8{a: 1, b: 0}); !h.IsConst() || h.Const().Cmp(big.NewRat(5, 1)) != 0 {
+		t.Fatalf("subst %s", h.Key())
+	}
+}
+
+func TestLayoutAndDivmod(t *testing.T) {
+	w := testWorld()
+	var l layout
+	for i := 0; i < 8; i++ {
+		l[i] = int32(w.BitVar("x", i) + 1)
+	}
+	x := w.fromLayout(&l)
+	q, r := w.divmod(nil, x, 3)
+	lq, ok1 := w.layoutOf(q)
+	lr, ok2 := w.layoutOf(r)
+	if !ok1 || !ok2 || lq.top() != 5 || lr.top() != 3 {
+		t.Fatalf("layout split failed")
+	}
+	if !q.F().Shl(3).Add(r.F()).Equal(x.F()) {
+		t.Fatalf("x != 8q + r on a layout")
+	}
+	// x + 4 is not a layout (bit 2 collides): the division identity introduces
+	// a fresh remainder, memoised on (form, k)
+	y := w.mkInt(x.F().Add(int64Form(4)), nil)
+	if _, ok := w.layoutOf(y); ok {
+		t.Fatalf("x+4 must not be a layout")
+	}
+	q1, r1 := w.divmod(nil, y, 3)
+	q2, r2 := w.divmod(nil, y, 3)
+	if !q1.F().Equal(q2.F()) || !r1.F().Equal(r2.F()) {
+		t.Fatalf("division identity is not memoised")
+	}
+	if !q1.F().Shl(3).Add(r1.F()).Equal(y.F()) {
+		t.Fatalf("y != 8q + r")
+	}
+	if q1.R.Lo.Int64() != 0 || q1.R.Hi.Int64() != 32 || r1.R.Hi.Int64() != 7 {
+		t.Fatalf("ranges q %s r %s", q1.R, r1.R)
+	}
+	if len(w.rems) != 1 || len(w.rems[0].Bits) != 3 {
+		t.Fatalf("expected one remainder of 3 bits")
+	}
+}
+
+func TestModP(t *testing.T) {
+	// 2^255 = 19 and 2^-51 * p = 0 (mod p) in Z[1/2]
+	got, _ := ratModP(new(big.Rat).SetInt(pow2(255)), P25519)
+	if got.Int64() != 19 {
+		t.Fatalf("2^255 mod p = %s", got)
+	}
+	r := new(big.Rat).SetFrac(P25519, pow2(51))
+	if z, ok := ratModP(r, P25519); !ok || z.Sign() != 0 {
+		t.Fatalf("p/2^51 mod p = %v", z)
+	}
+	k := ikind{bits: 8, signed: true}
+	if k.wrap(big.NewInt(200)).Int64() != -56 || k.wrap(big.NewInt(-129)).Int64() != 127 {
+		t.Fatalf("int8 wrap")
+	}
+}
+
+// TestRepository runs the three drivers on one configuration of the
+// repository under analysis (VOI_CFG, default purego).  Development aid: set
+// VOI_ELIN_DEV=1.
+func TestRepository(t *testing.T) {
+	if os.Getenv("VOI_ELIN_DEV") == "" {
+		t.Skip("development aid; set VOI_ELIN_DEV=1")
+	}
+	if os.Getenv("VOI_VERIF") == "" {
+		os.Setenv("VOI_VERIF", t.TempDir())
+	}
+	cfg := os.Getenv("VOI_CFG")
+	if cfg == "" {
+		cfg = "purego"
+	}
+	p, err := load.Load(cfg, load.Opts{SSA: true})
+	if err != nil {
+		t.Fatal(err)
+	}
+	run := report.New("XLIN", "quick", 0)
+	for _, res := range []*Result{CheckField(run, p, "LIN"), CheckScalarPack(run, p, "LIN"), CheckRecodings(run, p, "LIN")} {
+		if res.Obligations == 0 || res.Discharged != res.Obligations {
+			t.Errorf("obligations %d, discharged %d", res.Obligations, res.Discharged)
+		}
+	}
+	if code := run.Finish(); code != 0 {
+		t.Errorf("exit code %d", code)
 	}
 }
